@@ -6,6 +6,7 @@ CONSTANTS
   MaxSteps = 7
   Variant = "ok"
   WithSv = TRUE
+  Stamps = "now"
   SvMode = "ideal"
 INVARIANT TypeOK
 INVARIANT Coherent
